@@ -19,6 +19,7 @@ BAG = {
     "stallburst": '<<"join","join","sub","sub","sub","stall","bpub","bpub","bpub","resume","pub","leave">>',
     "burst": '<<"join","join","sub","sub","sub","reg","pub","bpub","bpub","bpub","leave","bmix">>',
     "burstrpc": '<<"join","join","reg","reg","sub","call","yield","bmix">>',
+    "hs": '<<"hello","hello","hello","auth","auth","auth","adv","msess","msess","wsub","pub","intrude","hsdrop","leave">>',
     "churn": '<<"join","join","sub","pub","reg","call","call","cancel","yield","leave","leave","leave","adv">>',
 }
 
@@ -111,6 +112,13 @@ PROPS = {
                 classes=["sess", "pubsub", "details", "meta", "metaapi", "rpcroute", "rpcreply"], poison=True),
     "C04": dict(family="hostile", classes=["sess", "pubsub", "rpcreply", "rpcroute", "rpcintr", "metaapi", "meta"]),
     "C19": dict(family="funcs"),
+    "C09": dict(family="core",
+                mcx=dict(module="MCHs", spec="MCSpec",
+                         inv=["C09_WelcomeOnlyIfJustified", "C09_AttachedIffWelcomed", "C09_RejectedInert", "C09_AbortedOrClosed", "C09_Identity"],
+                         consts=dict(quick={"Small": "TRUE"}, thorough={"Small": "FALSE"}),
+                         devs={"DevCryptosignReplay": "C09_WelcomeOnlyIfJustified"}),
+                gen=[dict(bag="hs", depth=18, quick=300, thorough=4000, mode="hs")],
+                classes=["sess", "meta", "metaapi", "pubsub", "rpcreply"]),
     "C13": dict(family="core",
                 mc=dict(kinds=MC_RPC_KINDS,
                         inv=["C13_AtMostOneInterrupt", "C13_Modes", "C13_TimeoutExact", "C02_NoLateTimer"],
@@ -184,6 +192,23 @@ def run_conc(work, conc, tier):
         if "Invariant %s is violated" % inv not in out:
             raise Infra("Conc.tla: deviation %s is not caught by invariant %s (vacuous?)" % (dev, inv))
     return tot
+
+
+def mcx_cfg(mcx, tier, devs=()):
+    cfg = "SPECIFICATION %s\nCONSTANTS\n  Deviations = %s\n" % (mcx["spec"], tla_set(devs))
+    for k, v in mcx["consts"][tier].items():
+        cfg += "  %s = %s\n" % (k, v)
+    return cfg + "INVARIANTS " + " ".join(mcx["inv"]) + "\nCHECK_DEADLOCK FALSE\n"
+
+
+def run_mcx(work, mcx, tier):
+    """leg 1 on a property-specific model checking module; each named deviation must be caught"""
+    st = model_check(work, mcx["module"], mcx_cfg(mcx, tier), timeout=3000, tag="mcx")
+    for dev, inv in mcx.get("devs", {}).items():
+        rc, out, wall = tlc(work, mcx["module"], mcx_cfg(mcx, "quick", [dev]), [], 1500, workers=CORES, tag="mcx-dev-" + dev)
+        if "Invariant %s is violated" % inv not in out:
+            raise Infra("%s: deviation %s is not caught by invariant %s (vacuous?)" % (mcx["module"], dev, inv))
+    return st
 
 
 def op_histogram(evs):
@@ -306,6 +331,10 @@ def run_core(prop, spec, tier, seed, work, replay):
         mcst = {"distinct": 0, "generated": 0, "wall_s": 0.0}
         if spec.get("mc"):
             mcst = model_check(work, "MC", mc_cfg(spec["mc"], tier), timeout=3000, tag="mc")
+        if spec.get("mcx"):
+            xst = run_mcx(work, spec["mcx"], tier)
+            for k in mcst:
+                mcst[k] = mcst[k] + xst[k]
         if spec.get("conc"):
             cst = run_conc(work, spec["conc"], tier)
             for k in mcst:
@@ -385,7 +414,8 @@ def run_core(prop, spec, tier, seed, work, replay):
                    "in a synctest bubble and its recorded trace validated by TLC against Trace.tla; evaluations = validated "
                    "steps; distinct non-trivial = distinct (input kind, multiset of received message kinds) with at least one message",
            "scenarios_generated": len(scns), "trace_events": len(evs), "ops": op_histogram(evs),
-           "leg1": {"config": (spec.get("mc") or {}).get(tier), "invariants": (spec.get("mc") or {}).get("inv"),
+           "leg1": {"config": (spec.get("mc") or {}).get(tier), "invariants": (spec.get("mc") or spec.get("mcx") or {}).get("inv"),
+                    "module": (spec.get("mcx") or {}).get("module", "MC"),
                     "conc": spec.get("conc"), "wall_s": mcst["wall_s"]},
            "classes_compared": classes, "binding_selftest": selftest,
            "checker_cmd": "tlc MC.tla (leg 1); tlc -simulate Gen.tla (leg 2); tlc Trace.tla (leg 3)",
